@@ -172,6 +172,7 @@ class System(BigSMILESbase):
             yield mol_gen
 
     def generate(self, prefix=None, rng=_GLOBAL_RNG):
+        super().generate(prefix, rng)
 
         relative_fractions = [mol.mixture.relative_mass for mol in self._molecules]
         mol_idx = rng.choice(
